@@ -16,7 +16,7 @@ OUT="/dev/shm/seedout/$NAME.$$"
 SNAP="/dev/shm/seedsnap/$NAME.$$"
 mkdir -p /tmp/seedrun "$OUT" "$SNAP"
 cp -r "$ROOT/harness" "$ROOT/known_findings.json" "$SNAP/"
-git -C /repo worktree add -q --detach "$WT" HEAD || exit 3
+git -C /repo worktree add -q --detach "$WT" "${BASE:-HEAD}" || exit 3
 trap 'git -C /repo worktree remove --force "$WT" >/dev/null 2>&1; rm -rf "$OUT" "$SNAP"' EXIT
 if ! git -C "$WT" apply "$PATCH"; then echo "patch does not apply"; exit 3; fi
 TIER="${TIER:-quick}"
